@@ -14,8 +14,7 @@ From QV Require Import Base.Bytes Sys.JobTypes Gen.JobTables Struct.NumRange.
 Import ListNotations.
 Open Scope N_scope.
 
-(* ---- calls on the Config layer.  obj: c_main c_pages c_enc c_uo c_att c_copy_att c_global *)
-Inductive cfg_call := CCall (obj meth : bstr) (args : list bstr).
+(* calls on the Config layer (cfg_call) and parsed job JSON values (jjv) are declared in Sys/JobTypes.v *)
 
 (* how a front end ends. front-end usage errors by kind (the text is the implementation's business, the kind is compared):
    1 unrecognized argument            2 parameter required / not one of the choices     3 bare option given a parameter
@@ -165,6 +164,27 @@ Definition run_target (files : list bstr) (e : aentry) (param : bstr) (s : astat
   | TManual h => a_manual files h param s
   end.
 
+(* "-x" / "--x": the option word without its dashes; None: positional (no leading '-', or the single word "-") *)
+Definition strip_dashes (arg : bstr) : option bstr :=
+  match arg with
+  | c :: c2 :: r => if c =? 45 then Some (if c2 =? 45 then r else c2 :: r) else None
+  | _ => None
+  end.
+Definition starts_with_dash (f : bstr) : bool := match f with c :: _ => c =? 45 | [] => false end.
+Definition is_nil {A} (l : list A) : bool := match l with [] => true | _ => false end.
+
+Definition is_help_only (flag : bstr) : bool :=
+  bstr_eqb flag B"help" || bstr_eqb flag B"completion-bash" || bstr_eqb flag B"completion-zsh".
+
+(* the checks QPDFArgParser::parseArgs makes on a found entry, then its handler *)
+Definition a_apply (files : list bstr) (e : aentry) (have_param : bool) (param : bstr) (s : astate) : astep :=
+  let needed := match ae_kind e with KParam | KChoices => true | _ => false end in
+  if (needed && negb have_param) || (negb (is_nil (ae_choices e)) && have_param && negb (bmem param (ae_choices e))) then AErr s 2
+  else match ae_kind e with
+       | KBare | KEnd => if have_param then AErr s 3 else run_target files e [] s
+       | _ => run_target files e param s
+       end.
+
 (* one command-line word. sole: the word is the only argument (help-table options are recognised only then) *)
 Definition a_step (files : list bstr) (sole : bool) (arg : bstr) (s : astate) : astep + unit (* inr tt = help option *) :=
   if bstr_eqb arg B"--" then
@@ -178,35 +198,21 @@ Definition a_step (files : list bstr) (sole : bool) (arg : bstr) (s : astate) : 
          | None => inl (AErr s 1)
          end
   else
-  match arg with
-  | 45 :: (_ :: _) as rest =>
-      let arg1 := match rest with 45 :: r2 => r2 | _ => rest end in
+  match strip_dashes arg with
+  | Some arg1 =>
       let '(flag, have_param, param) :=
         match split_eq_from1 arg1 with
         | Some (f, p) => (f, true, p)
         | None => (arg1, false, [])
         end in
       if sole && match a_lookup B"help" flag with Some _ => true | None => false end then inr tt
-      else if bstr_eqb flag B"help" || bstr_eqb flag B"completion-bash" || bstr_eqb flag B"completion-zsh" then
-        (if sole then inr tt else inl (AErr s 1))
-      else
-      let found := match flag with
-                   | [] => None
-                   | 45 :: _ => None
-                   | _ => a_lookup (a_table s) flag
-                   end in
-      match found with
-      | None => inl (AErr s 1)
-      | Some e =>
-          let needed := match ae_kind e with KParam | KChoices => true | _ => false end in
-          let has_choices := match ae_choices e with [] => false | _ => true end in
-          if (needed && negb have_param) || (has_choices && have_param && negb (bmem param (ae_choices e))) then inl (AErr s 2)
-          else match ae_kind e with
-               | KBare | KEnd => if have_param then inl (AErr s 3) else inl (run_target files e [] s)
-               | _ => inl (run_target files e param s)
-               end
-      end
-  | _ =>
+      else if is_help_only flag then (if sole then inr tt else inl (AErr s 1))
+      else if is_nil flag || starts_with_dash flag then inl (AErr s 1)
+      else match a_lookup (a_table s) flag with
+           | None => inl (AErr s 1)
+           | Some e => inl (a_apply files e have_param param s)
+           end
+  | None =>
       (* positional (also the single word "-") *)
       match a_lookup_pos (a_table s) with
       | None => inl (AErr s 1)
@@ -234,7 +240,6 @@ Definition front_argv (files : list bstr) (args : list bstr) : fe_res :=
 
 (* ================================================================ job JSON *)
 
-Inductive jjv := JJStr (s : bstr) | JJOther | JJArr (l : list jjv) | JJObj (l : list (bstr * jjv)).
 
 Fixpoint jlookup (k : bstr) (l : list (bstr * jjv)) : option jjv :=
   match l with [] => None | (k', v) :: r => if bstr_eqb k k' then Some v else jlookup k r end.
@@ -376,66 +381,55 @@ Definition j_end_array (h : bstr) (s : jstate) : jstep :=
 
 Definition handler_name (e : jentry) : bstr := match je_target e with TManual h => h | TConfig _ _ => [] end.
 
+Definition is_jmanual (e : jentry) : bool := match je_kind e with JManual => true | _ => false end.
+Definition is_jscalar (e : jentry) : bool := match je_kind e with JScalar _ => true | _ => false end.
+Definition is_jdict (e : jentry) : bool := match je_kind e with JDict => true | _ => false end.
+Definition is_jarray (e : jentry) : bool := match je_kind e with JArray => true | _ => false end.
+
+(* the string handlers installed by Handlers::addBare / addParameter / addChoices *)
+Definition j_scalar_apply (e : jentry) (x : bstr) (s : jstate) : jstep :=
+  match je_target e, je_kind e with
+  | TConfig obj meth, JScalar KBare => if is_nil x then JOk (j_emit (CCall obj meth []) s) else JErr s (EFront 20)
+  | TConfig obj meth, JScalar KParam => JOk (j_emit (CCall obj meth [x]) s)
+  | TConfig obj meth, JScalar KChoices =>
+      if bmem x (je_choices e) then JOk (j_emit (CCall obj meth [x]) s) else JErr s (EFront 21)
+  | TConfig obj meth, JScalar KOptChoices =>
+      if is_nil x || bmem x (je_choices e) then JOk (j_emit (CCall obj meth [x]) s) else JErr s (EFront 21)
+  | _, _ => JErr s (EFront 22)
+  end.
+
+(* a string value met by the handlers registered at path p (any handler first, then the string handler) *)
+Definition j_string_at (p : list bstr) (x : bstr) (s : jstate) : option jstep :=
+  let es := j_entries p in
+  match find is_jmanual es with
+  | Some e => Some (if is_ignore (handler_name e) then JOk s else j_manual_string (handler_name e) x s)
+  | None => match find is_jscalar es with
+            | Some e => Some (j_scalar_apply e x s)
+            | None => None
+            end
+  end.
+
 (* JSONHandler::handle at path p. The handlers registered at p are the entries of json_table with that path. *)
 Fixpoint j_handle (p : list bstr) (v : jjv) (s : jstate) {struct v} : jstep :=
   let es := j_entries p in
-  let manual := find (fun e => match je_kind e with JManual => true | _ => false end) es in
-  let scalar := find (fun e => match je_kind e with JScalar _ => true | _ => false end) es in
-  let dict := find (fun e => match je_kind e with JDict => true | _ => false end) es in
-  let arr := find (fun e => match je_kind e with JArray => true | _ => false end) es in
   let not_expected := JErr s (EFront 22) in
   let item_path := p ++ [ARRK] in
-  (* any handler: ignoreItem *)
-  match manual with
-  | Some e => if is_ignore (handler_name e) then JOk s else
-      match v with
-      | JJStr x => j_manual_string (handler_name e) x s
-      | _ => not_expected
-      end
-  | None =>
-  let try_fallback (v : jjv) (k : jjv -> jstep) :=
-    match arr with Some _ => k v | None => not_expected end in
+  let has_array := match find is_jarray es with Some _ => true | None => false end in
   match v with
   | JJStr x =>
-      match scalar with
-      | Some e =>
-          match je_target e, je_kind e with
-          | TConfig obj meth, JScalar KBare => match x with [] => JOk (j_emit (CCall obj meth []) s) | _ => JErr s (EFront 20) end
-          | TConfig obj meth, JScalar KParam => JOk (j_emit (CCall obj meth [x]) s)
-          | TConfig obj meth, JScalar KChoices =>
-              if bmem x (je_choices e) then JOk (j_emit (CCall obj meth [x]) s) else JErr s (EFront 21)
-          | TConfig obj meth, JScalar KOptChoices =>
-              if match x with [] => true | _ => false end || bmem x (je_choices e) then JOk (j_emit (CCall obj meth [x]) s)
-              else JErr s (EFront 21)
-          | _, _ => not_expected
-          end
+      match j_string_at p x s with
+      | Some r => r
       | None =>
-          (* fallback: the array's item handler applied to the value itself *)
-          match arr with
-          | Some _ =>
-              let es2 := j_entries item_path in
-              match find (fun e => match je_kind e with JManual => true | _ => false end) es2 with
-              | Some e2 => if is_ignore (handler_name e2) then JOk s else j_manual_string (handler_name e2) x s
-              | None =>
-                match find (fun e => match je_kind e with JScalar _ => true | _ => false end) es2 with
-                | Some e2 =>
-                    match je_target e2, je_kind e2 with
-                    | TConfig obj meth, JScalar KBare => match x with [] => JOk (j_emit (CCall obj meth []) s) | _ => JErr s (EFront 20) end
-                    | TConfig obj meth, JScalar KParam => JOk (j_emit (CCall obj meth [x]) s)
-                    | TConfig obj meth, JScalar KChoices =>
-                        if bmem x (je_choices e2) then JOk (j_emit (CCall obj meth [x]) s) else JErr s (EFront 21)
-                    | TConfig obj meth, JScalar KOptChoices =>
-                        if match x with [] => true | _ => false end || bmem x (je_choices e2) then JOk (j_emit (CCall obj meth [x]) s)
-                        else JErr s (EFront 21)
-                    | _, _ => not_expected
-                    end
-                | None => not_expected
-                end
-              end
-          | None => not_expected
-          end
+          (* fallback handler: the array's item handler applied to the value itself, without the array begin/end handlers *)
+          if has_array then match j_string_at item_path x s with Some r => r | None => not_expected end
+          else not_expected
       end
-  | JJOther => not_expected
+  | JJOther =>
+      (* an "any" handler (ignoreItem) accepts every value *)
+      match find is_jmanual es with
+      | Some e => if is_ignore (handler_name e) then JOk s else not_expected
+      | None => not_expected
+      end
   | JJObj l =>
       let walk (dp : list bstr) (h : bstr) :=
         match j_begin_dict h l s with
@@ -459,45 +453,50 @@ Fixpoint j_handle (p : list bstr) (v : jjv) (s : jstate) {struct v} : jstep :=
             | JErr s' e => JErr s' e
             end
         end in
-      match dict with
-      | Some e => walk p (handler_name e)
+      match find is_jmanual es with
+      | Some e => if is_ignore (handler_name e) then JOk s else not_expected
       | None =>
-          match arr with
-          | Some _ =>
-              match find (fun e => match je_kind e with JDict => true | _ => false end) (j_entries item_path) with
+        match find is_jdict es with
+        | Some e => walk p (handler_name e)
+        | None =>
+            if has_array then
+              match find is_jdict (j_entries item_path) with
               | Some e2 => walk item_path (handler_name e2)
               | None => not_expected
               end
-          | None => not_expected
-          end
+            else not_expected
+        end
       end
   | JJArr items =>
-      match arr with
-      | None => not_expected
-      | Some e =>
-          match j_begin_array (handler_name e) s with
-          | JErr s' en => JErr s' en
-          | JOk s1 =>
-              let r :=
-                (fix go (l : list jjv) (s : jstate) : jstep :=
-                   match l with
-                   | [] => JOk s
-                   | x :: rest =>
-                       match x with
-                       | JJArr _ => JErr s (EFront 22)      (* no array-of-array handlers in this tree *)
-                       | _ => match j_handle item_path x s with
-                              | JOk s' => go rest s'
-                              | JErr s' en => JErr s' en
-                              end
-                       end
-                   end) items s1 in
-              match r with
-              | JOk s2 => j_end_array (handler_name e) s2
-              | JErr s' en => JErr s' en
-              end
-          end
+      match find is_jmanual es with
+      | Some e => if is_ignore (handler_name e) then JOk s else not_expected
+      | None =>
+        match find is_jarray es with
+        | None => not_expected
+        | Some e =>
+            match j_begin_array (handler_name e) s with
+            | JErr s' en => JErr s' en
+            | JOk s1 =>
+                let r :=
+                  (fix go (l : list jjv) (s : jstate) : jstep :=
+                     match l with
+                     | [] => JOk s
+                     | x :: rest =>
+                         match x with
+                         | JJArr _ => JErr s (EFront 22)      (* no array-of-array handlers in this tree *)
+                         | _ => match j_handle item_path x s with
+                                | JOk s' => go rest s'
+                                | JErr s' en => JErr s' en
+                                end
+                         end
+                     end) items s1 in
+                match r with
+                | JOk s2 => j_end_array (handler_name e) s2
+                | JErr s' en => JErr s' en
+                end
+            end
+        end
       end
-  end
   end.
 
 (* QPDFJob::initializeFromJson(json, partial) after JSON::parse: schema check, then the handler tree from the top-level object *)
